@@ -332,6 +332,8 @@ func refLifeCycle(m *lcMock, scopeIn bool, cfgMode string, applies bool, inWin b
 func checkC04(ctx *core.Ctx, rep *core.Report) {
 	// E3 on every shard; E1/E2 need process-global mocks: shard 0 runs them last.
 	c04E3(ctx, rep)
+	// the four public lint struct types as state machines whose source, window and constructor are edited in place (c03meta.go)
+	metaHistories(ctx, rep, pickSeeds(seeds.Load(), 64), "C04", true)
 	if ctx.Shard == 0 {
 		mocks := registerLCMocks()
 		c04E1(ctx, rep, mocks)
